@@ -447,7 +447,7 @@ theorem ugeZext_sound : ∀ s ∈ R.ugeZext, Sound s := by
   · exact uge_cat0_low_sound
   · exact uge_cat0_high_sound
 
-theorem all_sound : ∀ s ∈ R.all, Sound s := by
+theorem pre_sound : ∀ s ∈ R.base ++ R.widthy ++ R.iteCmp ++ R.revRules ++ R.ugeZext, Sound s := by
   intro s hs
   rcases List.mem_append.mp hs with h | h
   · rcases List.mem_append.mp h with h | h
